@@ -16,7 +16,14 @@ import (
 	"strings"
 )
 
-const repoRoot = "/repo"
+// the tree the facts are read from: /repo. (VERIF_REPO lets a developer point the fact extractor at a
+// scratch worktree; no registered command sets it.)
+var repoRoot = func() string {
+	if v := os.Getenv("VERIF_REPO"); v != "" {
+		return v
+	}
+	return "/repo"
+}()
 
 func exprStr(fset *token.FileSet, e ast.Node) string {
 	var sb strings.Builder
@@ -404,7 +411,7 @@ func runFacts(args []string) {
 	fs := flag.NewFlagSet("facts", flag.ExitOnError)
 	which := fs.String("fact", "", "F1..F7")
 	fs.Parse(args)
-	table := map[string]func(*token.FileSet){"F1": factF1, "F2": factF2, "F3": factF3, "F4": factF4, "F5": factF5, "F6": factF6, "F7": factF7, "F8": factF8, "F9": factF9, "F10": factF10}
+	table := map[string]func(*token.FileSet){"F1": factF1, "F2": factF2, "F3": factF3, "F4": factF4, "F5": factF5, "F6": factF6, "F7": factF7, "F8": factF8, "F9": factF9, "F10": factF10, "F11": factF11}
 	fn, ok := table[*which]
 	if !ok {
 		fmt.Println("FACT", *which, "unknown")
@@ -578,4 +585,60 @@ func factF10(fset *token.FileSet) {
 	if nlocks < 8 {
 		fail("only %d lock acquisitions found in plugins/ and server/ (the fact is looking at the wrong code)", nlocks)
 	}
+}
+
+// F11: the static lease tables are read by the handlers under recLock.RLock and replaced, whole,
+// under recLock.Lock — "a refresh is one atomic table swap": handle4/handle6 take the read lock
+// (deferred unlock) before their only look-up in the table; loadFromFile parses the file BEFORE
+// taking the write lock and assigns the tables after it; nothing else assigns them or writes into them.
+func factF11(fset *token.FileSet) {
+	rel := "plugins/file/plugin.go"
+	lockDiscipline(fset, rel, "", "handle4", "recLock", []string{"(*records)", "*records"})
+	lockDiscipline(fset, rel, "", "handle6", "recLock", []string{"(*records)", "*records"})
+	lockDiscipline(fset, rel, "", "loadFromFile", "recLock", []string{"DHCPv6Records", "DHCPv4Records", "StaticRecords"})
+	f := parseFile(fset, rel)
+	tables := map[string]bool{"DHCPv6Records": true, "DHCPv4Records": true, "StaticRecords": true}
+	for _, d := range f.Decls {
+		fd, ok := d.(*ast.FuncDecl)
+		if !ok || fd.Body == nil {
+			continue
+		}
+		ast.Inspect(fd.Body, func(n ast.Node) bool {
+			as, ok := n.(*ast.AssignStmt)
+			if !ok {
+				return true
+			}
+			for _, l := range as.Lhs {
+				s := exprStr(fset, l)
+				base := s
+				if i := strings.IndexAny(s, "["); i >= 0 {
+					base = strings.Trim(s[:i], "(*)")
+				}
+				if tables[base] || strings.HasPrefix(s, "(*records)[") {
+					if fd.Name.Name != "loadFromFile" || strings.Contains(s, "[") {
+						fail("%s:%d: %s writes the served table (%s) outside the one swap in loadFromFile", rel, fset.Position(as.Pos()).Line, fd.Name.Name, s)
+					}
+				}
+			}
+			return true
+		})
+	}
+	// the parse happens before the lock: LoadDHCPv{4,6}Records are not called with recLock held
+	fd := findFunc(f, "", "loadFromFile")
+	lockPos := token.NoPos
+	ast.Inspect(fd.Body, func(n ast.Node) bool {
+		if c, ok := n.(*ast.CallExpr); ok && exprStr(fset, c) == "recLock.Lock()" && lockPos == token.NoPos {
+			lockPos = c.Pos()
+		}
+		return true
+	})
+	ast.Inspect(fd.Body, func(n ast.Node) bool {
+		if c, ok := n.(*ast.CallExpr); ok {
+			s := exprStr(fset, c.Fun)
+			if (s == "LoadDHCPv6Records" || s == "LoadDHCPv4Records") && c.Pos() > lockPos {
+				fail("%s: loadFromFile reads the file while holding the write lock", rel)
+			}
+		}
+		return true
+	})
 }
